@@ -4101,8 +4101,8 @@ def speigs(a, charge_sector, k, *args, **kwargs):
     if ret_eigv:
         V = []
         for j in range(V_flat.shape[1]):
-            U = zeros([a.legs[0]], dtype=a.dtype, qtotal=charge_sector)
-            U._data = [V_flat[:, j]]
+            U = zeros([a.legs[0]], dtype=np.promote_types(a.dtype, V_flat.dtype), qtotal=charge_sector)
+            U._data = [np.array(V_flat[:, j], dtype=U.dtype, order='C')]  # eigenvectors of real `a` can be complex
             U._qdata = np.array([[qi]], dtype=np.intp)
             if len(piped_axes) > 0:
                 U = U.split_legs(0)
